@@ -72,6 +72,12 @@ func extractKeyValue(keyvalue *commonpb.KeyValue) (string, interface{}, error) {
 }
 
 func extractAnyValue(anyValue *commonpb.AnyValue) (interface{}, error) {
+	if anyValue == nil {
+		// The value is optional on the wire (a KeyValue without value, a log
+		// record without body).
+		return nil, nil
+	}
+
 	switch anyValue.Value.(type) {
 	case *commonpb.AnyValue_StringValue:
 		return anyValue.GetStringValue(), nil
